@@ -18,6 +18,7 @@ type family struct {
 }
 
 type runCtx struct {
+	family string
 	seed   uint64
 	n      int
 	tier   string
@@ -73,7 +74,7 @@ func main() {
 		fmt.Fprintln(os.Stderr, "unknown family", fam)
 		os.Exit(2)
 	}
-	ctx := &runCtx{seed: *seed, n: *n, tier: *tier, outDir: *out, extra: *extra, stats: map[string]int{}}
+	ctx := &runCtx{family: fam, seed: *seed, n: *n, tier: *tier, outDir: *out, extra: *extra, stats: map[string]int{}}
 	if err := os.MkdirAll(*out, 0o755); err != nil {
 		fmt.Fprintln(os.Stderr, err)
 		os.Exit(2)
